@@ -26,13 +26,25 @@ LEAF = {1: 'def make() -> int:\n\treturn 1\n', 2: "def make() -> str:\n\treturn 
 # (vm.n in vm.n1 in vm.n10 in vm.n100), so that nothing in the code under test may select a module by partial path match
 STEM = {'a': 'n10', 'b': 'n1', 'c': 'n', 'd': 'n100'}
 UNSTEM = {v: k for k, v in STEM.items()}
+# the twins graph: three files with ONE base name in different packages (vm/n.py imports vm/p/n.py and vm/q/n.py)
+GRAPH_STEM = {'Twins': {'a': 'n', 'b': 'p.n', 'c': 'q.n'}}
+
+
+def stem_of(graph: str, m: str) -> str:
+	"""dotted path of module m below vm"""
+	return GRAPH_STEM.get(graph, STEM).get(m, m)
+
+
+def unstem(graph: str, dotted: str) -> str:
+	table = GRAPH_STEM.get(graph, STEM)
+	return {v: k for k, v in table.items()}[dotted]
 
 BODY_CLASS = {1: 1, 2: 2, 3: 1, 4: 4}  # variant 3 = variant 1 with a different layout (same emitted text, other file hash)
 
 
 def source_of(graph: str, m: str, v: int) -> str:
 	import re
-	return re.sub(r'\bvm\.([abcd])\b', lambda mm: f'vm.{STEM[mm.group(1)]}', _source_of(graph, m, v))
+	return re.sub(r'\bvm\.([abcd])\b', lambda mm: f'vm.{stem_of(graph, mm.group(1))}', _source_of(graph, m, v))
 
 
 def _source_of(graph: str, m: str, v: int) -> str:
@@ -95,7 +107,7 @@ class World:
 			'grammar': os.path.join(REPO, 'data/grammar.lark'),
 			'template_dirs': [os.path.join(REPO, 'data/cpp/template')],
 			'trans_mapping': os.path.join(REPO, 'data/i18n.yml'),
-			'input_globs': [f'vm/{STEM.get(m, m)}.py' for m in self.targets],
+			'input_globs': [f'vm/{stem_of(graph, m).replace(".", "/")}.py' for m in self.targets],
 			'exclude_patterns': [],
 			'output_dirs': ['out/'],
 			'output_language': 'cpp:h',
@@ -110,13 +122,14 @@ class World:
 
 	# -- operations ------------------------------------------------------------------------------------------
 	def src_path(self, m: str) -> str:
-		return os.path.join(self.root, 'vm', f'{STEM.get(m, m)}.py')
+		return os.path.join(self.root, 'vm', f'{stem_of(self.graph, m).replace(".", os.sep)}.py')
 
 	def out_path(self, m: str) -> str:
-		return os.path.join(self.out_dir, 'vm', f'{STEM.get(m, m)}.h')
+		return os.path.join(self.out_dir, 'vm', f'{stem_of(self.graph, m).replace(".", os.sep)}.h')
 
 	def edit(self, m: str, v: int, t: int | None = None) -> None:
 		"""new content and new modification time; t = the time of the specification (1 = initial), default: one later than before"""
+		os.makedirs(os.path.dirname(self.src_path(m)), exist_ok=True)
 		with open(self.src_path(m), 'w') as f:
 			f.write(source_of(self.graph, m, v))
 		self.times = getattr(self, 'times', {})
@@ -164,8 +177,9 @@ class World:
 	def cache_files(self, kind: str, m: str = '') -> list[str]:
 		if kind == 'parser':
 			return sorted(glob.glob(os.path.join(self.cache_dir, 'parser.cache-*.bin')))
-		stem = STEM.get(m, m)
-		files = sorted(glob.glob(os.path.join(self.cache_dir, 'vm', f'{stem}-*.json')))
+		dotted = stem_of(self.graph, m)
+		stem = dotted.split('.')[-1]
+		files = sorted(glob.glob(os.path.join(self.cache_dir, 'vm', *dotted.split('.')[:-1], f'{stem}-*.json')))
 		if kind == 'sym':
 			return [f for f in files if os.path.basename(f).startswith(f'{stem}-symbols-')]
 		return [f for f in files if not os.path.basename(f).startswith(f'{stem}-symbols-')]
@@ -233,12 +247,12 @@ class ColdOracle:
 		key = (m, tuple(sorted(vector.items())))
 		if key not in self.memo:
 			from harness.tranp_env import Env
-			sources = {f'vm.{STEM.get(d, d)}': source_of(self.graph, d, v) for d, v in vector.items()}
+			sources = {f'vm.{stem_of(self.graph, d)}': source_of(self.graph, d, v) for d, v in vector.items()}
 			import tempfile
 			cold_dir = tempfile.mkdtemp(prefix='cold-cache-', dir=os.getcwd())  # cold by construction: empty directory
 			try:
 				env = Env(sources=sources, cache_dir=cold_dir, cache_enabled=True)
-				text = env.transpile(f'vm.{STEM.get(m, m)}')
+				text = env.transpile(f'vm.{stem_of(self.graph, m)}')
 			finally:
 				shutil.rmtree(cold_dir, ignore_errors=True)
 			self.memo[key] = text.partition('\n')[2]
